@@ -109,6 +109,24 @@ def cost_samples_fit(chk, seed):
                           'cost vector from create_cost_samples (%d entries) differs from the cost vector of the problem (%d entries)' % (len(c1), len(c0)), dict(portfolio=name))
         else:
             chk.nontrivial(('cost_samples', name))
+        # a rolling run: the SAME sample dictionaries, their arrays updated in place, on the same portfolio and grid objects - the cost samples
+        # must follow the content (they are what the scenario problem is built from)
+        try:
+            with quiet():
+                for k_ in pr2:
+                    pr2[k_] *= 2.0
+                    pr2[k_] += 1.0
+                cs2 = pf2.create_cost_samples([pr2], tg2)
+                name3, pf3, pr3, tg3 = z(seed)
+                want = pf3.setup_optim_problem({k_: np.asarray(v, float) * 2.0 + 1.0 for k_, v in pr3.items()}, tg3).c
+        except Exception as e:
+            chk.violation(dict(check='cost_samples_raise', portfolio=name, error=type(e).__name__, call='second'), 'second create_cost_samples raised %s: %s' % (type(e).__name__, str(e)[:100]),
+                          dict(portfolio=name))
+            continue
+        c2 = np.asarray(cs2[0], float)
+        want = np.asarray(want, float)
+        if c2.shape != want.shape or not np.allclose(c2, want, rtol=1e-12, atol=1e-12):
+            chk.violation(dict(check='cost_samples_stale', portfolio=name), 'cost samples of price arrays updated in place are not those of the updated prices', dict(portfolio=name))
 
 
 def mip_scenarios(chk, tier, seed):
